@@ -77,7 +77,7 @@ class RProp(Prop):
                      "distinct = distinct canonical configuration." % max_jobs)
 
     def generate(self, tier, rnd):
-        n = 500 if tier == "quick" else 12000
+        n = 1000 if tier == "quick" else 20000
         out = []
         for _ in range(n):
             mj = rnd.choice([3, 5, 8, self.max_jobs, self.max_jobs])
@@ -192,12 +192,12 @@ def has_nested(cfg, r):
 
 
 PROPS = {
-    "C01": RProp("C01", 0, [10], profile={"edge": 0.5, "yields": 0.4, "nested": 0.3},
+    "C01": RProp("C01", 0, [10], profile={"edge": 0.6, "yields": 0.4, "nested": 0.3, "tie": 0.7, "never": 0.05},
                  rule="C01: at every EStart/EBegin the monitor requires every requirement (and every requirement of the "
                       "enclosing nested scheduler) to be done in the state implied by the events so far. Non-trivial = "
                       "the tree has at least one requirement edge.",
                  nontrivial=has_edges),
-    "C02": RProp("C02", 0, [20, 41], profile={"forever": 0.3, "exc": 0.4, "maxdur": 3, "window": 0.5},
+    "C02": RProp("C02", 0, [20, 41], profile={"forever": 0.3, "exc": 0.4, "maxdur": 3, "window": 0.5, "tie": 0.6, "edge": 0.5},
                  rule="C02: at every EStart/EBegin the job must not have started before; at every observed end of a run "
                       "with verdict True every non-forever member must be done in the state implied by the events so far. "
                       "Non-trivial = at least 3 jobs.",
